@@ -151,3 +151,104 @@ theorem keyEquiv_same_verdict (c : Cfg) (d : Dir) (u p q : Bytes)
   simp only [authenticate, hfile]
 
 end Whawty.Store.C01
+
+namespace Whawty.Store.C01
+open Whawty Whawty.Rec Whawty.Store
+
+/-- Operations of a history (salts and the clock are what the run observed). -/
+inductive Op
+  | add (u pw : Bytes) (adm : Bool) (now : Int) (salt : Bytes)
+  | update (u pw : Bytes) (now : Int) (salt : Bytes)
+  | setAdmin (u : Bytes) (st : Bool)
+  | remove (u : Bytes)
+  deriving Repr
+
+def Op.user : Op → Bytes
+  | .add u .. => u | .update u .. => u | .setAdmin u _ => u | .remove u => u
+
+/-- One operation; a failing operation leaves the directory as it is. -/
+def step (c : Cfg) (d : Dir) : Op → Dir
+  | .add u pw adm now salt => match add c d u pw adm now salt with | .ok d' => d' | .error _ => d
+  | .update u pw now salt => match update c d u pw now salt with | .ok d' => d' | .error _ => d
+  | .setAdmin u st => match setAdmin d u st with | .ok d' => d' | .error _ => d
+  | .remove u => remove d u
+
+def run (c : Cfg) (d : Dir) (h : List Op) : Dir := h.foldl (step c) d
+
+/-- "The verdict for `u` is: exactly the passwords with the digest of `pw0` (under `salt0` and
+    the set `ps`), time `now0`, some admin flag." -/
+def Tracks (c : Cfg) (d : Dir) (u : Bytes) (ps : ParamSet) (salt0 pw0 : Bytes) (now0 : Int) : Prop :=
+  ∃ a, ∀ p, authenticate c d u p =
+    if ps.digest salt0 p = ps.digest salt0 pw0 then .ok ⟨a, false, now0⟩ else .error .wrongPassword
+
+theorem tracks_step (c : Cfg) (d : Dir) (u : Bytes) (ps : ParamSet) (salt0 pw0 : Bytes) (now0 : Int) (op : Op)
+    (h : Tracks c d u ps salt0 pw0 now0)
+    (hop : op.user ≠ u ∨ ∃ st, op = .setAdmin u st) : Tracks c (step c d op) u ps salt0 pw0 now0 := by
+  obtain ⟨a, ha⟩ := h
+  rcases hop with hne | ⟨st, rfl⟩
+  · -- an operation on another user: u's files are untouched
+    have hs : sameUser d (step c d op) u := by
+      cases op with
+      | add v pw adm now salt =>
+        simp only [step]
+        cases hadd : add c d v pw adm now salt with
+        | error e => exact ⟨rfl, rfl⟩
+        | ok d' => exact add_other_user hadd (fun e => hne e.symm)
+      | update v pw now salt =>
+        simp only [step]
+        cases hup : update c d v pw now salt with
+        | error e => exact ⟨rfl, rfl⟩
+        | ok d' => exact update_other_user hup (fun e => hne e.symm)
+      | setAdmin v st =>
+        simp only [step]
+        cases hsa : setAdmin d v st with
+        | error e => exact ⟨rfl, rfl⟩
+        | ok d' => exact setAdmin_other_user hsa (fun e => hne e.symm)
+      | remove v => exact remove_other_user d (fun e => hne e.symm)
+    exact ⟨a, fun p => by rw [← sameUser_authenticate c hs p]; exact ha p⟩
+  · -- set-admin of u itself: only the reported admin flag changes
+    simp only [step]
+    cases hsa : setAdmin d u st with
+    | error e => exact ⟨a, ha⟩
+    | ok d' =>
+      refine ⟨st, fun p => ?_⟩
+      rw [setAdmin_authenticate c hsa p, ha p]
+      by_cases hq : ps.digest salt0 p = ps.digest salt0 pw0 <;> simp [hq]
+
+/-- **Verdict tracks the last acknowledged write, for every history.** After a successful add
+    or update of `u` with password `pw0`, followed by ANY finite history of operations none of
+    which is an add, update or remove of `u` itself (operations on any other users, set-admin of
+    `u`, successful or failing), authenticating `u` with `p` succeeds exactly when `p` has the
+    digest of `pw0` — and reports the time of that write. -/
+theorem verdict_tracks_last_write {c : Cfg} {d0 : Dir} {u pw0 salt0 : Bytes} {now0 : Int} (w : Op)
+    (hw : (∃ adm, w = .add u pw0 adm now0 salt0 ∧ ∃ d', add c d0 u pw0 adm now0 salt0 = .ok d') ∨
+          (w = .update u pw0 now0 salt0 ∧ ∃ d', update c d0 u pw0 now0 salt0 = .ok d'))
+    (hc : CfgOk c) (ht : timeOk now0) (h2 : List Op)
+    (hh : ∀ op ∈ h2, op.user ≠ u ∨ ∃ st, op = .setAdmin u st) :
+    ∃ ps, c.lookup c.default = some ps ∧ Tracks c (run c (step c d0 w) h2) u ps salt0 pw0 now0 := by
+  -- the write itself
+  have h1 : ∃ ps, c.lookup c.default = some ps ∧ Tracks c (step c d0 w) u ps salt0 pw0 now0 := by
+    rcases hw with ⟨adm, rfl, d', hadd⟩ | ⟨rfl, d', hup⟩
+    · obtain ⟨ps, hps, hauth⟩ := add_then_auth hadd hc ht
+      exact ⟨ps, hps, adm, by simpa [step, hadd] using hauth⟩
+    · obtain ⟨ps, a, hps, _, hauth⟩ := update_then_auth hup hc ht
+      exact ⟨ps, hps, a, by simpa [step, hup] using hauth⟩
+  obtain ⟨ps, hps, htr⟩ := h1
+  refine ⟨ps, hps, ?_⟩
+  -- the rest of the history
+  generalize step c d0 w = d at htr
+  induction h2 generalizing d with
+  | nil => exact htr
+  | cons op rest ih =>
+    simp only [run, List.foldl]
+    exact ih (fun o ho => hh o (by simp [ho])) (step c d op) (tracks_step c d u ps salt0 pw0 now0 op htr (hh op (by simp)))
+
+/-- Near-miss passwords never succeed unless the parameter set's digest function itself maps
+    them to the same digest: immediate from the theorem above (the verdict is digest equality). -/
+theorem near_miss_fails {c : Cfg} {d : Dir} {u : Bytes} {ps : ParamSet} {salt0 pw0 p : Bytes} {now0 : Int}
+    (h : Tracks c d u ps salt0 pw0 now0) (hne : ps.digest salt0 p ≠ ps.digest salt0 pw0) :
+    authenticate c d u p = .error .wrongPassword := by
+  obtain ⟨a, ha⟩ := h
+  rw [ha p]; simp [hne]
+
+end Whawty.Store.C01
